@@ -14,7 +14,9 @@ RULE = ("Hypothesis: buffer of 0-12 lines (ASCII words, punctuation, blanks, tab
 ASSUMPTIONS = ["left-to-right text (right-to-left layout is C17/C18's subject)", "calibrations of the reference: e/b stop on empty lines; 9G beyond the end goes to "
                "the last line, column 1; a failing w at the end of the buffer stays on the last character; t next to its target does not move"]
 
-ATOMS = ["foo", "bar", "a", "x1", "_id", " ", " ", "  ", "\t", ".", ",", "(", ")", "[", "]", "{", "}", "-", "é", "日", "本", "😀", "́", "ß", "o", "b"]
+# (double-width characters from several ranges of the width table, not only the everyday ones: U+3400 U+FFE5 U+1100 U+3105 U+AC00)
+ATOMS = ["foo", "bar", "a", "x1", "_id", " ", " ", "  ", "\t", ".", ",", "(", ")", "[", "]", "{", "}", "-", "é", "日", "本", "😀", "́", "ß", "o", "b",
+         "\u3400", "\uffe5", "\u1100", "\u3105", "\uac00"]
 CHARS = ["o", "a", "b", " ", ".", "(", ")", "é", "日", "\t", "x"]
 
 
